@@ -260,8 +260,11 @@ impl Timestamp {
         requires self.nanos + n <= u64::MAX ensures r.nanos == self.nanos + n { unimplemented!() }
     #[verifier::external_body] pub const fn plus_seconds(&self, n: u64) -> (r: Timestamp)
         requires self.nanos as nat + n as nat * 1_000_000_000 <= u64::MAX ensures r.nanos == self.nanos + n * 1_000_000_000 { unimplemented!() }
+    /// panics on underflow. The panic is modelled as NON-RETURN (partial correctness): whatever follows the call knows that the subtraction did
+    /// not underflow, so a clause "too early ==> rejected" holds of the real code because it never returns there - and fails for a variant that
+    /// replaces the panicking subtraction by a saturating / absolute one and carries on
     #[verifier::external_body] pub const fn minus_nanos(&self, n: u64) -> (r: Timestamp)
-        requires self.nanos >= n ensures r.nanos == self.nanos - n { unimplemented!() }
+        ensures self.nanos >= n, r.nanos == self.nanos - n { unimplemented!() }
     #[verifier::external_body] pub const fn minus_seconds(&self, n: u64) -> (r: Timestamp)
         requires self.nanos as nat >= n as nat * 1_000_000_000 ensures r.nanos == self.nanos - n * 1_000_000_000 { unimplemented!() }
 }
